@@ -258,8 +258,13 @@ class C16(Prop):
                         sib = base.with_entrypoint(other)
                         with _w.catch_warnings():
                             _w.simplefilter("ignore")
+                            # (through the SAME long-lived runner object the case itself will use)
                             if not async_bodies:
-                                _SR().run(sib, {k: 1 for k in sib.inputs.required}, error_handling="continue", max_iterations=20)
+                                impl._runner("sync").run(sib, {k: 1 for k in sib.inputs.required}, error_handling="continue", max_iterations=20)
+                            else:
+                                import asyncio as _aio
+
+                                _aio.run(impl._runner("async").run(sib, {k: 1 for k in sib.inputs.required}, error_handling="continue", max_iterations=20))
                     except Exception:  # noqa: BLE001 - the sibling's own fate is irrelevant
                         pass
             finally:
